@@ -33,10 +33,69 @@ def run(tier):
         return [enc.DEFAULT]
 
     st = enc.run(v, cases + strict_cases, binary, combos_for)
+    # ---- execution monitor: let the CPU compute the effective address. For lea shapes the program loads known constants
+    # into the address registers, executes the lea the library assembled and returns the result; the expected value is
+    # (B + I*s + d) mod 2^address-size, truncated / zero-extended to the destination width. This checks the decoders'
+    # reading of ModRM/SIB/disp against the hardware.
+    from ..canon import R64, R32, regnum, REGW
+    plain = common.build("plain")
+    leas = [c for c in cases if c["form"] == "lea" and REGW[c["mreg"]] in (32, 64) and c["base"] != "esp" and c["index"] not in ("rsp", "esp")
+            and not (c["base"] == "rsp" and (c["asz"] != 64 or REGW[c["mreg"]] != 64))]
+    if len(leas) > (4000 if not full else 60000):
+        leas = rnd.sample(leas, 4000 if not full else 60000)
+    ex, exmeta = [], []
+    for c in leas:
+        asz, dw = c["asz"], REGW[c["mreg"]]
+        par = lambda r: R64[regnum(r)]
+        vals = {}
+        for r in (c["base"], c["index"]):
+            if r and r not in ("rsp",) and par(r) not in vals:
+                vals[par(r)] = rnd.getrandbits(64) | (1 << 63) | (1 << 31)
+        prog = ["mov %s, 0x%x" % (r, k) for r, k in vals.items()]
+        prog.append(c["text"])
+        d64 = par(c["mreg"])
+        if d64 != "rax":
+            prog.append("mov rax, %s" % d64)
+        m = (1 << asz) - 1
+        ea = (c["disp"] or 0)
+        if c["base"] and c["base"] != "rsp":
+            ea += vals[par(c["base"])] & m
+        if c["index"]:
+            ea += (vals[par(c["index"])] & m) * (c["scale"] or 1)
+        ea &= m
+        if c["base"] == "rsp":
+            prog.append("sub rax, rsp")
+            want = ea & (2**64 - 1)
+        else:
+            want = ea & ((1 << dw) - 1)
+        prog.append("ret")
+        masks = ["2" + sw + nb for sw in "01" for nb in "01"] if sensitive(c) else [enc.DEFAULT]
+        for mk in masks:
+            ex.append(["new 0 int", "opt 0 mask %s" % mk, "asm 0 %s" % common.hx("\n".join(prog)), "exec 0"])
+            exmeta.append((c, mk, want, prog))
+    exres = common.run_cases(plain, ex, tag="c02x")
+    exec_ok = 0
+    for (c, mk, want, prog), cmds, r in zip(exmeta, ex, exres):
+        v.count()
+        cc = {k: x for k, x in c.items() if k not in ("exp", "alt")}
+        cc.update({"key": "exec %s [%s]" % (c["text"], mk), "combo": mk, "fam": "lea_exec", "script": cmds})
+        if r["crash"]:
+            v.violation(cc, r["crash"]["sig"], r["crash"]["stderr"][-600:])
+            continue
+        a, e = r["records"][2].split(), r["records"][3].split()
+        if a[1] != "0":
+            v.violation(cc, "exec:rejected", r["records"][2])
+        elif e[:2] != ["V", "ok"] or int(e[2], 16) != want:
+            v.violation(cc, "exec:wrong-effective-address", "program %s -> %s, expected 0x%x" % ("; ".join(prog), " ".join(e), want))
+        else:
+            exec_ok += 1
+            v.distinct(("exec", c["text"], mk))
+    st["lea_executions"] = len(ex)
+    st["lea_executions_ok"] = exec_ok
     v.cov["rule"] = ("address shapes (base in none/16 r64/16 r32) x index classes x scale absent/1/2/4/8 in both factor orders x displacement boundaries "
                      "(hex and decimal) x %d instruction classes taking a memory operand; mode-sensitive shapes (stack-pointer index, no-base scaled index) under "
                      "all swap x no-base modes with the documented STRICT literal encoding as explicit expectation; judged on decoded base/index/scale as a linear "
-                     "form, sign-extended displacement, address size and access width; distinct = (text, bytes) read back as expected by both decoders" % len(set(c["form"] for c in cases)))
+                     "form, sign-extended displacement, address size and access width; distinct = (text, bytes) read back as expected by both decoders; plus JIT execution of lea over sampled shapes with known register values: the CPU's effective address must equal base+index*scale+disp" % len(set(c["form"] for c in cases)))
     v.cov["exhaustive"] = False
     v.cov["classes"] = sorted(set(c["form"] for c in cases))
     v.assumptions += ["LLVM-MC and libopcodes decode correctly where nasm's encoding of the same line validates them",
